@@ -228,6 +228,7 @@ impl Model {
         let (op_sender, op_funds): (String, Vec<(String, u128)>) = match op {
             Op::Exec { sender, funds, contract, .. } if contract == q => (sender.clone(), funds.clone()),
             Op::Hook { native_sender, channel, amount, contract, .. } if contract == q => (hook_sender(channel, native_sender, &sc.w.prefix), vec![(ibc_denom_for(channel), *amount)]),
+            Op::HookForeign { native_sender, channel, contract, .. } if contract == q => (hook_sender(channel, native_sender, &sc.w.prefix), vec![]),
             _ => (String::new(), vec![]),
         };
         let paid_s: u128 = op_funds.iter().filter(|(d, _)| d == s).map(|(_, a)| *a).sum();
